@@ -9,7 +9,7 @@ from xv.props.common import new_case, build_root, flush_contracts, ctxs
 
 ID = "C10"
 LEVEL = "exploration"
-N_QUICK, N_THOROUGH = 12000, 500000
+N_QUICK, N_THOROUGH = 20000, 500000
 T_QUICK, T_THOROUGH = 70, 1500
 FLOORS = {"histories": 1500, "steps": 20000, "full_rereads": 40000, "op:leaf": 8000, "op:whole": 2000, "op:ref": 800,
           "growths": 500, "via:handle": 3000, "via:view": 3000, "via:nested": 2000, "via:stale": 1000,
